@@ -231,6 +231,26 @@ func checkPair(prop, value string, compiled bool) {
 		}
 		checkStyleAttr(entry, prop, value, `<div style="`+out+`"></div>`, want)
 	}
+	// several style values in one attribute: a trusted (here: empty) map, slice or string before or after must not
+	// change what the untrusted pair gets — the combined result equals the single-argument result checked above
+	for entry, arg := range map[string]any{"style-map": map[string]string{prop: value}, "style-kv": templ.KV(prop, value)} {
+		alone, err := templruntime.SanitizeStyleAttributeValues(arg)
+		if err != nil {
+			continue
+		}
+		for name, args := range map[string][]any{
+			"after an empty map[string]SafeCSSProperty":  {map[string]templ.SafeCSSProperty{}, arg},
+			"before an empty map[string]SafeCSSProperty": {arg, map[string]templ.SafeCSSProperty{}},
+			"after an empty SafeCSS":                     {templ.SafeCSS(""), arg},
+			"after an empty KeyValue[SafeCSS,bool]":      {templ.KV(templ.SafeCSS(""), true), arg},
+			"after an empty []string":                    {[]string{}, arg},
+		} {
+			got, err := templruntime.SanitizeStyleAttributeValues(args...)
+			if err != nil || got != alone {
+				report(entry+" "+name, prop, value, got, fmt.Sprintf("differs from the same value alone (%s), err %v", vlib.Quote(alone), err))
+			}
+		}
+	}
 	if !compiled {
 		return
 	}
